@@ -320,12 +320,12 @@ def body(chk, db, cfgname):
         r2.bad(IC + "getIndex", g.loc(), "getIndex(info) does not return the stored index on the found edge / IndexSize on the not-found edge", cfgname)
     # ------------------------------------------------------------------ R3: the key order of the inverse table separates all triples
     r3 = chk.rule("C18-R3", "IndexInfo::operator< is a lexicographic order on (label, orbital, spin): distinct triples are distinct keys of the inverse table", "F8 guards", 1)
-    check_lt(r3, db, cfgname)
+    check_lt(r3, db, cfgname, chk.tier == "thorough")
     chk.undecided.append("invariance of physical results under relabelling / ordering mode (relational, value level)")
     chk.note("IndexInfo::operator< orders by a hash of the site label: a hash collision would merge two sites; none can be exhibited statically (information only)")
 
 
-def check_lt(r3, db, cfgname):
+def check_lt(r3, db, cfgname, thorough=False):
     """IndexInfo::operator< must be a strict weak order under which two IndexInfo are equivalent only if they agree in
     (label hash, orbital, spin).  The comparator only compares / combines three members, so evaluating its extracted body
     on all pairs over a small domain (2 hashes x 4 orbitals x 4 spins: every relative order of every member occurs, and
@@ -335,7 +335,7 @@ def check_lt(r3, db, cfgname):
     II = IC + "IndexInfo::"
     site = IC + "IndexInfo::operator<"
     with r3.guard(site, lt.loc(), cfgname):
-        vals = [(h, o, s_) for h in (1, 2) for o in range(4) for s_ in range(4)]
+        vals = [(h, o, s_) for h in ((1, 2, 3) if thorough else (1, 2)) for o in range(6 if thorough else 4) for s_ in range(6 if thorough else 4)]
 
         def mk(v):
             return Obj("IndexInfo", **{II + "SiteLabelHash": v[0], II + "Orbital": v[1], II + "Spin": v[2], II + "SiteLabel": "site%d" % v[0]})
